@@ -1733,6 +1733,16 @@ where
         }));
     }
     {
+        // a positional, non-self-describing format (vpos.rs, in the style of bincode): attributes that change the shape of
+        // the stream without telling the reader only show in formats like this one
+        let (ty, v) = (ty.to_string(), v.clone());
+        jobs.push(Box::new(move |sink: &mut Sink| {
+            let (shape, _) = flat(&v);
+            let r = crate::vpos::to_bytes(&v).map_err(|e| e.to_string()).and_then(|b| crate::vpos::from_bytes::<T>(&b).map_err(|e| e.to_string()));
+            sink.ev(serde_event(&ty, "positional", &shape, &v, &flat, r));
+        }));
+    }
+    {
         let (ty, v) = (ty.to_string(), v.clone());
         jobs.push(Box::new(move |sink: &mut Sink| {
             let (shape, _) = flat(&v);
